@@ -28,7 +28,7 @@ ANCHORS = [
     "raggedshape.py::RaggedView2._calculate_lengths",
     "raggedshape.py::build_indices",
 ]
-FLOOR_TAGS = ["recv:fresh", "recv:lazyrows", "recv:lazycols+2", "recv:lazycols-1", "recv:lazychain", "r:int", "r:slice+1", "r:slice+k", "r:slice-", "r:list", "r:array", "r:mask", "r:ell",
+FLOOR_TAGS = ["recv:fresh", "recv:lazyrows", "recv:lazycols+2", "recv:lazycols-1", "recv:lazychain", "recv:ufunc", "recv:astype", "mask-as-list", "r:int", "r:slice+1", "r:slice+k", "r:slice-", "r:list", "r:array", "r:mask", "r:ell",
               "c:none", "c:int+", "c:int-", "c:slice+1", "c:slice+k", "c:slice-",
               "must-refuse", "sel-has-empty-row", "e-first", "e-last", "e-mid", "e-consec", "allempty", "norows"]
 FLOOR_MONITORS = ["c02:model-compare", "c02:refusal", "inv:ragged"]
@@ -39,7 +39,7 @@ def setup(lib):
     contracts.attach(lib, which=("ragged",))
 
 
-RECVS = ["fresh", "lazyrows", "lazycols+2", "lazycols-1", "lazychain"]
+RECVS = ["fresh", "lazyrows", "lazycols+2", "lazycols-1", "lazychain", "ufunc", "astype"]
 
 
 def mk_case(lens, rs, cs=None, has_cs=False, recv="fresh"):
@@ -52,6 +52,11 @@ def build_receiver(recv, flat, lens):
     RA = CTX.lib.RaggedArray
     if recv == "fresh" or recv is None:
         return RA(flat.copy(), list(lens)), None
+    if recv == "ufunc":      # the direct result of a ufunc (built internally, possibly with other construction flags)
+        base = RA(flat.copy(), list(lens))
+        return (base + flat.dtype.type(0)) if flat.dtype.kind != "b" else np.logical_or(base, False), None
+    if recv == "astype":
+        return RA(flat.copy(), list(lens)).astype(flat.dtype), None
     rows = gen.split_rows(flat, lens)
     jv = np.array([-7]).astype(flat.dtype)[0]   # wraps for unsigned, True for bool
     junk = lambda k: np.full(k, jv, dtype=flat.dtype)
@@ -109,6 +114,8 @@ def run(case):
     pyrows = gen.id_rows(lens)
     flat = np.array([v for r in pyrows for v in r], dtype=np.int64)
     tags = [model.describe_selector(rs), model.describe_cols(cs, has_cs), "recv:" + recv] + gen.empty_placement(lens)
+    if isinstance(rs, list) and rs and isinstance(rs[0], bool):
+        tags.append("mask-as-list")
     # the model's answer
     try:
         kind, cells = model.select_cells(lens, rs, cs, has_cs)
@@ -190,6 +197,9 @@ def _directed():
     yield mk_case(L, [0, 5])        # refuse
     yield mk_case(L, [-6])          # refuse
     yield mk_case(L, np.array([True, False, True, True, False]))
+    yield mk_case(L, [True, False, True, True, False])
+    yield mk_case(L, [False, False, False, True, False], slice(None, None, -1), True)
+    yield mk_case([2, 2], [True, True])
     yield mk_case(L, np.zeros(5, dtype=bool))
     yield mk_case(L, np.ones(5, dtype=bool))
     yield mk_case(L, Ellipsis)
@@ -286,7 +296,8 @@ def random_selector(rng, n, allow_oob=True):
         return q if k == "list" else np.array(q, dtype=rng.choice([np.int64, np.int32, np.intp]))
     if k == "mask":
         p = rng.choice([0.0, 0.5, 0.5, 1.0])
-        return np.array([rng.random() < p for _ in range(n)], dtype=bool)
+        m = [rng.random() < p for _ in range(n)]
+        return m if (n and rng.random() < 0.3) else np.array(m, dtype=bool)     # a python list of bools is a mask too (as in numpy)
     if k == "empty":
         return rng.choice([[], np.zeros(0, dtype=np.int64)])
     return Ellipsis
